@@ -39,9 +39,12 @@ ASSUMPTIONS = [
     "position for given parameters: 1e-9*(scale + |position|) from the declared point (float noise only)",
     "off-manifold offsets stay below the reach of the curved manifolds (|c| <= 0.5, radius >= 0.6 scale, offset <= "
     "0.4 scale) so the closest point is unique",
-    "RotationLink: 'the angle the leader turned' is the change of the leader's azimuth about the axis, in (-pi, pi); "
-    "asserted whenever the leader stays off the axis and the turn is not within 1e-3 of half a turn; tolerance "
-    "1e-6*(scale + |follower - origin|) because the library measures the angle with arccos (error <= 2.1e-8 rad)",
+    "RotationLink: 'the angle the leader turned' is the change of the leader's azimuth about the axis, in [-pi, pi] "
+    "(at exactly half a turn both senses give the same follower; next to it the sense is that of the azimuth change); "
+    "asserted whenever the leader stays off the axis. The library measures the angle with arccos, whose resolution "
+    "next to 0 and next to pi is sqrt(2*k*1.1e-16) <= 3e-8 rad (k <= 4 rounding errors in the cosine), i.e. a follower "
+    "error <= 3e-8*|follower - origin|; a wrongly resolved sense within that distance of pi costs twice as much: "
+    "tolerance 1e-6*(scale + |follower - origin|)",
     "links are given float arrays (as the optimizer does), never integer arrays",
 ]
 
@@ -50,6 +53,7 @@ TOL_CREATE_1D = 1e-5  # (abs, and rel to scale) line / plane / curve clamps: mea
 TOL_PARAM = 1e-9
 TOL_LINK = 1e-9
 TOL_ROT = 1e-6
+HALF_TURN_OFFSETS = [0.0, 1e-9, 1e-6, 1e-4, 1e-3]
 
 # --------------------------------------------------------------------------------------------------
 # clamps
@@ -190,13 +194,18 @@ def link_case(kind: str):
             {**common, "normal": xm.vec3, "nlen": xm.nlen, "origin": xm.vec3, "moves": st.lists(move, min_size=1, max_size=3)}
         )
     angle = st.one_of(
-        st.floats(-math.pi + 0.01, math.pi - 0.01),
+        st.floats(-math.pi, math.pi),
         st.tuples(st.floats(-7.0, 0.0), st.sampled_from([1, -1])).map(lambda t: t[1] * 10.0 ** t[0]),
+        # at and around half a turn (past it = a turn the other way round)
+        st.tuples(st.sampled_from(HALF_TURN_OFFSETS), st.sampled_from([1, -1]), st.sampled_from([1, -1])).map(
+            lambda t: t[1] * (math.pi + t[2] * t[0])
+        ),
     )
     move = st.fixed_dictionaries(
         {
             "angle": angle,
             "on_circle": st.booleans(),
+            "opposite": st.sampled_from([False, False, False, True]),  # leader reflected through the axis
             "dr": st.floats(-0.5, 0.5).map(lambda x: 10.0**x),
             "dh": st.floats(-2.0, 2.0),
         }
@@ -261,6 +270,9 @@ def check_link(kind: str):
                 o = np.asarray(spec["origin"], float)
                 n = unit(spec["axis"])
                 target = apply(m_rotate(mv["angle"], n, o), leader0)
+                if mv.get("opposite"):
+                    d0 = leader0 - o
+                    target = o + 2 * (d0 @ n) * n - d0  # diametrically opposite point, without any trigonometry
                 if not mv["on_circle"]:
                     d = target - o
                     hgt = (d @ n) * n
@@ -290,6 +302,9 @@ def check_link(kind: str):
             moved = max(moved, float(np.linalg.norm(target - leader0)) / s)
             if kind == "rotation":
                 ctx.label("on-circle" if mv["on_circle"] else "off-circle", "turn<0" if mv["angle"] < 0 else "turn>0")
+                phi = xm.azimuth_change(spec["axis"], spec["origin"], leader0, target)[0]
+                if math.pi - abs(phi) < 2e-3:
+                    ctx.label("half-turn" if math.pi - abs(phi) < 1e-9 else "near-half-turn")
         dirs = [spec[k] for k in ("axis", "normal") if k in spec]
         ctx.nt(moved > 1e-3 and not any(xm.aligned(d) for d in dirs))
         ctx.label(f"moves={len(case['moves'])}")
